@@ -407,6 +407,7 @@ def explore_instance(ctx, fam, inst, tier, seed, known_active):
     ex = Exec(mod, timeout_ms=20000 if tier == 'quick' else 60000, seed=seed)
     ex.exact_consts = True
     ex.fork_minmax = getattr(fam, 'fork_minmax', False)
+    ex.sqrt_mode = getattr(fam, 'sqrt_mode', 'exact')
     res = dict(family=fam.name, inst=inst, paths=0, obligations=0, discharged=0, inconclusive=[], nonrepro=0,
                known_hits={}, violations=[], samples=[], bound_exceeded=0, validated=0, validation_skipped=0,
                mismatches=[], nontrivial=0, error=None, deferred_memory=0, uninit_reads=0, labels={})
